@@ -686,11 +686,21 @@ class Spectrum(Generic[_TData]):
         # Read the sample counts up front: when a spectrum is appended to itself, its sample count
         # changes while the samples are being appended.
         sample_counts = [spectrum.sample_count for spectrum in spectrums]
+        # Read the samples up front too: growing the buffer can move or resize the memory that
+        # a spectrum sharing it (such as this spectrum itself) refers to.
+        samples = [
+            (
+                spectrum.data.copy()
+                if np.may_share_memory(spectrum._data, self._data)
+                else spectrum.data
+            )
+            for spectrum in spectrums
+        ]
         self._increase_capacity(sum(sample_counts))
 
         offset = self._start_index + self._sample_count
-        for spectrum, sample_count in zip(spectrums, sample_counts):
-            self._data[offset : offset + sample_count] = spectrum.data[:sample_count]
+        for spectrum, source, sample_count in zip(spectrums, samples, sample_counts):
+            self._data[offset : offset + sample_count] = source[:sample_count]
             offset += sample_count
             self._sample_count += sample_count
             self._extended_properties._merge(spectrum._extended_properties)
